@@ -112,11 +112,11 @@ static struct fdinfo g_fds[MAXFD];
 
 enum kind {
   K_OPENR, K_OPENW, K_OPENDIR, K_READ, K_WRITE, K_READDIR, K_SHORT_READ, K_SHORT_WRITE,
-  K_EINTR_READ, K_EINTR_WRITE, K_EINTR_OPEN, K_CLOCKJUMP, K_CRASH, K_RENAME, K_STATSIZE, K_TTY, K_DEVNO, K_FLOCK, K_SIGNAL, K_GETCWD, K_THREAD, K_EAGAIN_READ, K_STAT, K_TREAD, K_NKINDS
+  K_EINTR_READ, K_EINTR_WRITE, K_EINTR_OPEN, K_CLOCKJUMP, K_CRASH, K_RENAME, K_STATSIZE, K_TTY, K_DEVNO, K_FLOCK, K_SIGNAL, K_GETCWD, K_THREAD, K_EAGAIN_READ, K_STAT, K_TREAD, K_EAGAIN_WRITE, K_NKINDS
 };
 static const char *kind_names[] = {"openr", "openw", "opendir", "read", "write", "readdir",
                                    "short_read", "short_write", "eintr_read", "eintr_write",
-                                   "eintr_open", "clockjump", "crash", "rename", "statsize", "tty", "devno", "flock", "signal", "getcwd", "thread", "eagain_read", "stat", "tread"};
+                                   "eintr_open", "clockjump", "crash", "rename", "statsize", "tty", "devno", "flock", "signal", "getcwd", "thread", "eagain_read", "stat", "tread", "eagain_write"};
 struct rule {
   int kind;
   char sel[RELMAX];
@@ -211,7 +211,7 @@ static void parse_plan(const char *plan) {
     if (when[0] == '+') { r->by_offset = 1; r->when = atol(when + 1); }
     else r->when = atol(when);
     switch (r->kind) {
-      case K_SHORT_READ: case K_SHORT_WRITE: case K_CLOCKJUMP: case K_CRASH: case K_STATSIZE: case K_TTY: case K_DEVNO: case K_SIGNAL: case K_EAGAIN_READ:
+      case K_SHORT_READ: case K_SHORT_WRITE: case K_CLOCKJUMP: case K_CRASH: case K_STATSIZE: case K_TTY: case K_DEVNO: case K_SIGNAL: case K_EAGAIN_READ: case K_EAGAIN_WRITE:
         r->arg = atol(arg); break;
       case K_EINTR_READ: case K_EINTR_WRITE: case K_EINTR_OPEN:
         r->arg = EINTR; break;
@@ -507,6 +507,22 @@ static size_t transfer_gate(int fd, size_t len, int is_write, int *err, int *rul
     for (int i = 0; i < g_nrules; i++) {
       struct rule *r = &g_rules[i];
       if (r->kind != K_EAGAIN_READ || !sel_match(r, f->rel)) continue;
+      r->hits++;
+      if (r->hits >= r->when && r->hits < r->when + r->arg) {
+        r->fired = 1;
+        g_clock_jump += 100000000LL;
+        *err = EAGAIN; *rule = i; return 0;
+      }
+    }
+  }
+  /* `eagain_write:<sel>:n:k`: from the n-th write of a matching descriptor on, k writes in a row
+   * answer EAGAIN (a non-blocking pipe whose reader is slow - what a Node.js parent hands to its
+   * children); afterwards the descriptor takes data again. Together with a `short_write` rule the
+   * write before the stall is a partial one. */
+  if (is_write) {
+    for (int i = 0; i < g_nrules; i++) {
+      struct rule *r = &g_rules[i];
+      if (r->kind != K_EAGAIN_WRITE || !sel_match(r, f->rel)) continue;
       r->hits++;
       if (r->hits >= r->when && r->hits < r->when + r->arg) {
         r->fired = 1;
